@@ -2,6 +2,8 @@
 structure)."""
 from __future__ import annotations
 
+import ast
+
 from typing import Dict, List, Optional, Tuple
 
 from .. import terms as tm
@@ -270,8 +272,17 @@ def check(ctx):
            f"is_so3 lacks the "
            f"{'determinant' if not det_c or not one else 'orthogonality'} "
            f"conjunct: {fmt(ret)}", key="C09.3:is_so3")
-    tolv = [(k, v_) for c in conj for x in c.walk() if x.op == "call"
+    tolv = [(k, _default_of(prog.func(L + "is_so3"), v_))
+            for c in conj for x in c.walk() if x.op == "call"
             for k, v_ in x.args[2] if k in ("atol", "rtol")]
+    # the membership tests must not widen a parametrised tolerance
+    for name in ("is_se3", "is_sim3"):
+        fn = prog.func(L + name)
+        for e in Interp(prog).run(fn).calls(L + "is_so3"):
+            extra = list(e.data["args"][1:]) + \
+                [v_ for _, v_ in e.data["kwargs"]]
+            tolv += [(f"{name}->is_so3", _default_of(fn, v_))
+                     for v_ in extra]
     big = [(k, v_) for k, v_ in tolv if not (
         tm.is_const(v_) and isinstance(v_.args[1], (int, float)) and
         0 <= v_.args[1] <= 1e-3)]
@@ -360,14 +371,21 @@ def check(ctx):
     f = prog.func(L + "so3_log_angle")
     for deg in (False, True):
         res = Interp(prog).run(f, {"degrees": const(deg)})
-        ret = res.ret
+        # the property speaks about genuine group elements: a separate
+        # treatment of matrices that fail the membership test is outside it
+        member = tm.call(tm.func(L + "is_so3"), (tm.param("r"),), ())
+
+        def genuine(t):
+            return tm.select(t, lambda a: True if a is member else None)
+        ret = genuine(res.ret)
         x = ret
         if is_call_to(x, "builtins.float") and x.args[1]:
-            x = x.args[1][0]
+            x = genuine(x.args[1][0])
         conv = is_call_to(x, "numpy.rad2deg", "numpy.degrees",
                           "math.degrees")
         if conv:
-            x = x.args[1][0]
+            x = genuine(x.args[1][0])
+        ret = x
         ang_ok = is_call_to(x, "numpy.linalg.norm") and x.args[1] and \
             is_call_to(x.args[1][0], L + "so3_log") and \
             x.args[1][0].args[1][0] is tm.param("r") or \
@@ -396,6 +414,20 @@ def check(ctx):
         else:
             ctx.undecidable("C09.4", f, f"angle idiom not recognised: "
                             f"{fmt(ret)}")
+
+
+def _default_of(fn, v: T) -> T:
+    """a tolerance that is the function's own parameter stands for that
+    parameter's default (what callers that do not pass it get)"""
+    if v.op == "param":
+        a = fn.node.args
+        pos = a.posonlyargs + a.args
+        for prm, d in list(zip(pos[len(pos) - len(a.defaults):],
+                               a.defaults)) + \
+                [(k, d) for k, d in zip(a.kwonlyargs, a.kw_defaults) if d]:
+            if prm.arg == v.args[0] and isinstance(d, ast.Constant):
+                return const(d.value)
+    return v
 
 
 VARIANTS = [
